@@ -620,7 +620,7 @@ func (lexer *Lexer) maybeExpandEquals() {
 		lexer.Token = TEqualsEquals
 		lexer.step()
 
-		if lexer.Token == '=' {
+		if lexer.codePoint == '=' {
 			// "=" + "==" = "==="
 			lexer.Token = TEqualsEqualsEquals
 			lexer.step()
